@@ -361,26 +361,118 @@ func errorDisciplineRule(c *Ctx, r5 string) {
 					continue
 				}
 				fail, _, ok := g.ErrBranches(nd, cs)
+				errVar := g.errVarOfCall(nd, cs)
+				if !ok {
+					// try-lock idiom: `ok, _, _ := Lock(...)` with the error discarded and the boolean tested:
+					// the not-acquired edge is the failure edge
+					if starts, tested := g.failStartsOfBoolErrCall(nd, cs); tested && len(starts) > 0 {
+						fail, ok = starts, true
+					}
+				}
 				if !ok {
 					c.Violated(r5, construct, cs.Call.Pos(), "the error result of a storage / lock call on the commit path is not bound to a tested variable: a failed write can go unnoticed and the commit reports success", nil)
 					continue
 				}
-				// from the failure edge: only non-nil error returns, or (for bool-returning validators) `return false, ..., err`;
-				// reaching a nil-error return or the node itself again (loop) without returning is a violation
-				r := g.Reach(fail, isReturn, nil)
-				var offs []Offence
+				// enclosing `for` loops: going round again is a retry (the loops are deadline-guarded, C15.R1)
+				var loopConds []ast.Node
+				ast.Inspect(f.Body, func(x ast.Node) bool {
+					if fs, isFor := x.(*ast.ForStmt); isFor && fs.Body.Pos() <= cs.Call.Pos() && cs.Call.End() <= fs.Body.End() {
+						if fs.Cond != nil {
+							loopConds = append(loopConds, ast.Unparen(fs.Cond))
+						} else {
+							loopConds = append(loopConds, fs.Body)
+						}
+					}
+					return true
+				})
+				isRetry := func(x *GNode) bool {
+					if x.Ast == nil {
+						return false
+					}
+					for _, lc := range loopConds {
+						if x.Ast == lc {
+							return true
+						}
+						if blk, isBlk := lc.(*ast.BlockStmt); isBlk && len(blk.List) > 0 && x.Ast.Pos() == blk.List[0].Pos() {
+							return true
+						}
+						// the condition may have been expanded into leaves: any leaf inside it
+						if e, isE := lc.(ast.Expr); isE && x.IsCond && e.Pos() <= x.Ast.Pos() && x.Ast.End() <= e.End() {
+							return true
+						}
+					}
+					return false
+				}
+				cutNil := func(from *GNode, e Edge) bool {
+					if errVar == nil {
+						return false
+					}
+					cv, trueMeansNonNil, isTest := g.condNilTest(from)
+					return isTest && cv == errVar && (e.Cond == 1) != trueMeansNonNil
+				}
+				stop := func(x *GNode) bool {
+					return x.Ret != nil || isRetry(x) || (errVar != nil && x != nd && g.assigns(x, errVar))
+				}
+				r := g.Reach(fail, stop, cutNil)
+				// aggregation idiom: on the failure edge the error is folded into another error variable
+				// (`lastErr = err`, `lastErr = fmt.Errorf("...%w", err)`) that the function returns at the end
+				carriers := map[types.Object]bool{}
 				for _, x := range g.Nodes {
 					if !r.Seen[x.ID] {
 						continue
 					}
-					if x.Ret != nil && g.ClassifyReturn(x) == RetNil {
-						offs = append(offs, Offence{x, r.Path(x.ID)})
-					}
-					if x.Exit && g.errResultIndex() >= 0 {
-						// falling off the end is impossible for functions with results
+					if as, isAs := x.Ast.(*ast.AssignStmt); isAs && len(as.Lhs) == len(as.Rhs) {
+						for i, l := range as.Lhs {
+							if id, isID := ast.Unparen(l).(*ast.Ident); isID {
+								if lv, isV := f.Pkg.TypesInfo.Uses[id].(*types.Var); isV && isErrorType(lv.Type()) && lv != errVar {
+									if (errVar != nil && mentionsObj(f.Pkg.TypesInfo, as.Rhs[i], errVar)) || w.mentionsCall(f, as.Rhs[i], "fmt.Errorf", "errors.New") {
+										carriers[lv] = true
+									}
+								}
+							}
+						}
 					}
 				}
-				c.Offences(g, offs, r5, construct, cs.Call.Pos(), "failure edge reaches no success return", "a failed storage / lock call can end in a nil-error return")
+				// follow the carriers to the function's returns
+				var offs []Offence
+				if len(carriers) > 0 {
+					all := g.Reach(fail, isReturn, cutNil)
+					for _, x := range g.Nodes {
+						if all.Seen[x.ID] && x.Ret != nil {
+							if e := g.ErrOperand(x); e != nil {
+								if id, isID := ast.Unparen(e).(*ast.Ident); isID && carriers[f.Pkg.TypesInfo.Uses[id]] {
+									continue
+								}
+							}
+						}
+					}
+				}
+				for _, x := range g.Nodes {
+					if !r.Seen[x.ID] || x.Ret == nil {
+						continue
+					}
+					if e := g.ErrOperand(x); e != nil {
+						if id, isID := ast.Unparen(e).(*ast.Ident); isID && carriers[f.Pkg.TypesInfo.Uses[id]] {
+							continue
+						}
+					}
+					switch g.ClassifyReturn(x) {
+					case RetNonNil:
+					case RetNil:
+						// a non-success signal of a validator (`return false, ..., nil`) is not "success"
+						if len(x.Ret.Results) > 1 && isBoolLit(f.Pkg.TypesInfo, x.Ret.Results[0], false) {
+							continue
+						}
+						offs = append(offs, Offence{x, r.Path(x.ID)})
+					default:
+						// `return err` where err is not provably non-nil on this path
+						if len(x.Ret.Results) > 1 && isBoolLit(f.Pkg.TypesInfo, x.Ret.Results[0], false) {
+							continue
+						}
+						offs = append(offs, Offence{x, r.Path(x.ID)})
+					}
+				}
+				c.Offences(g, offs, r5, construct, cs.Call.Pos(), "the failure edge reaches only error returns (or a deadline-guarded retry)", "after a failed storage / lock call the function can return nil, or an error variable that is not provably non-nil on that path: the commit goes on (or reports success) although the call failed")
 			}
 		}
 	}
